@@ -672,15 +672,20 @@ def rule_tb3(ctx, prog, rid, fns, control=False):
                 continue
             r = strip(e.get('r'))
             site = None
-            if e.get('op') == '=' and isinstance(r, dict) and r.get('k') == 'bin' and r['op'] == '-' and (const_value(r['r']) or 0) > 0 and unsigned_var(r['l']):
+            r_uns2 = isinstance(r, dict) and r.get('k') == 'bin' and any(
+                isinstance(y, dict) and (y.get('tk') == 'uint' or (y.get('ty') or '').replace('const ', '').startswith(('size_t', 'unsigned long', 'std::size_t')))
+                for y in walk(r.get('r')))
+            if e.get('op') == '=' and isinstance(r, dict) and r.get('k') == 'bin' and r['op'] == '-' and (const_value(r['r']) or 0) > 0 and \
+                    (unsigned_var(r['l']) or (isinstance(strip(r['l']), dict) and strip(r['l']).get('k') == 'var' and strip(r['l']).get('tk') == 'int' and r_uns2)):
                 site = (r['l'], const_value(r['r']), dstr(r))
             elif e.get('op') in ('--', '-=') :
                 site = (e['l'], const_value(e.get('r')) if e.get('op') == '-=' else 1, '%s %s' % (dstr(e['l']), e.get('op')))
             if not site or not site[1]:
                 continue
             xl, c, txt = site
-            lo, hi = bounds(f, e, xl)
-            ok = lo >= c or lower_bound_on_all_paths(f, e, xl, c)
+            real = f.blocks[e['_b']]['ev'][e['_i']] if e.get('from_decl') else e      # stores() hands out a synthetic event for declarations
+            lo, hi = bounds(f, real, xl)
+            ok = lo >= c or lower_bound_on_all_paths(f, real, xl, c)
             n += 1
             if control:
                 bad += 0 if ok else 1
@@ -836,6 +841,11 @@ def run(ctx):
             rule_tb3(ctx, fx, 'C13.TB1', [fx.fn('nvctl::GuardedPosition')], control=True) != 0:
         raise AnalysisBroken('TB3 control failed')
     ctx.inst('C13.TB1', 'fixtures/controls.cc', 'controls: nvctl::UnderflowingPosition fires, nvctl::GuardedPosition is silent')
+    if rule_tb3(ctx, fx, 'C13.TB1', [fx.fn('nvctl::CountedDownPosition')], control=True) < 1 or \
+            rule_tb3(ctx, fx, 'C13.TB1', [fx.fn('nvctl::CountedDownGuarded')], control=True) != 0 or \
+            rule_tb3(ctx, fx, 'C13.TB1', [fx.fn('nvctl::WindowThroughLocal')], control=True) < 1:
+        raise AnalysisBroken('TB3 control (counted-down / local position) failed')
+    ctx.inst('C13.TB1', 'fixtures/controls.cc', 'controls: nvctl::CountedDownPosition and nvctl::WindowThroughLocal fire, nvctl::CountedDownGuarded is silent')
     ctx.check('C13.TB1', n3 >= 5, 'unsigned positions', 'unsigned-underflow:sites', 'src', '%d `unsigned - constant` position sites examined' % n3)
     # the build log loader has no file-derived subscripts at all
     bl = prog.fn('BuildLog::Load')
